@@ -379,6 +379,9 @@ func (f *fileEventer) OnEvent(p *attachment.PackageProgress) {
 	if f.inner != nil {
 		f.inner.OnEvent(p)
 	}
+	if p.ProgressStage == attachment.ProgressStageSuccessQuit || p.ProgressStage == attachment.ProgressStageFailQuit {
+		emit(ev{"event": "file-saved", "conn": f.id, "probe": f.id == 1}) // the default handler has returned: files are on disk
+	}
 }
 
 // ---------------------------------------------------------------- main
